@@ -36,7 +36,7 @@ func liveOutputAt(b *mBridge, index uint64) *mOutput {
 
 func TestC05Rapid(t *testing.T) {
 	rec := evid.For("C05")
-	runRapid(t, 300, 20000, func(rt *rapid.T) {
+	runRapid(t, 200, 20000, func(rt *rapid.T) {
 		c := rec.Begin()
 		w := newL1World(rt, l1Cfg{weights: c05Weights, maxBridges: 3, badCfgProb: 25, periods: c05Periods, noAutoAdvance: rapid.Bool().Draw(rt, "noauto"),
 			offsets: []time.Duration{-time.Second - time.Nanosecond, -time.Second, -time.Second + time.Nanosecond, -time.Nanosecond, 0, time.Nanosecond, time.Second, 5 * time.Second}})
